@@ -3,6 +3,7 @@ import errno
 import ipaddress
 import os
 import socket as _socket
+import weakref
 
 from .kernel import SimUnsupported, subrng
 
@@ -80,7 +81,7 @@ class World:
         self.addr_state = dict(plan.get('world', {}).get('addrs', {}))
         self.hosts = dict(plan.get('world', {}).get('hosts', {}))
         self.conns = []
-        self.sockets = []
+        self.sockets = {}        # fd -> weakref(SimSocket): an unreferenced socket is finalised like a real one
         self.next_fd = 1000
         self.next_eport = 40000
         self.resolver_log = []
@@ -89,6 +90,7 @@ class World:
         self.faults_fired = {}
         self.probes = {}         # coverage probes
         self.tripwires = []
+        self.max_conns = int(plan.get('knobs', {}).get('max_conns', 50000))
         self.net_time_us = 0     # virtual time spent by data in flight (latency, gaps, injected delays)
         self.executors = []
         self.exec_future_counter = 0
@@ -108,8 +110,16 @@ class World:
         j = self.lat_rng.randint(0, self.jitter) if self.jitter else 0
         return self.rtt // 2 + j
 
+    def live_sockets(self):
+        out = []
+        for ref in self.sockets.values():
+            s = ref()
+            if s is not None:
+                out.append(s)
+        return out
+
     def open_tool_conns(self):
-        return sum(1 for s in self.sockets if s.end is not None and not s.closed)
+        return sum(1 for s in self.live_sockets() if s.end is not None and not s.closed)
 
     # ---------------------------------------------------------------- resolver
     def getaddrinfo(self, host, port, family=0, type=0, proto=0, flags=0):
@@ -223,6 +233,8 @@ class World:
 
     # ---------------------------------------------------------------- connection set-up
     def new_conn(self, a_addr, b_addr):
+        if len(self.conns) >= self.max_conns:
+            self.k.abort('CONNS_EXCEEDED')
         c = Connection(self, len(self.conns), a_addr, b_addr)
         self.conns.append(c)
         return c
@@ -271,7 +283,7 @@ class SimSocket:
         self.wr_shut = False
         self.fd = world.next_fd
         world.next_fd += 1
-        world.sockets.append(self)
+        world.sockets[self.fd] = weakref.ref(self)
         world.k.record('tool', 'socket', self.fd, int(family))
 
     def __hash__(self):
@@ -615,7 +627,7 @@ def sim_select(world, rlist, wlist, xlist, timeout=None):
             return x
         if isinstance(x, int):
             if fdmap is None:
-                fdmap = {s.fd: s for s in world.sockets if not s.closed}
+                fdmap = {s.fd: s for s in world.live_sockets() if not s.closed}
             s = fdmap.get(x)
             if s is None:
                 raise OSError(errno.EBADF, 'Bad file descriptor')
